@@ -1,7 +1,8 @@
 //@inject src/fp/ops.rs
-//@harness split_mul_u16_full | bounded(word size 16 bits instead of 128; ALL operand pairs) | FieldMulOpsSplitWord::mul, the SAME generic code as FP128, instantiated at W=u16 / HalfWord=u8 with prime 65521: r < p and r*2^16 == x*y (mod p) for every x and every y < p (every carry path of the two-limb schoolbook product and both REDC rounds)
+//@harness split_word_precondition_fp128 | complete | FP128 meets the implicit precondition of the split-word multiplier (PRIME <= 2^128 - 2^64, so no carry is lost after the first reduction round) and its 64-bit MU satisfies MU * p0 == -1 (mod 2^64)
+//@harness split_mul_u16_full | bounded(word size 16 bits instead of 128; ALL operand pairs) | FieldMulOpsSplitWord::mul, the SAME generic code as FP128, instantiated at W=u16 / HalfWord=u8 with prime 65269: r < p and r*2^16 == x*y (mod p) for every x and every y < p (every carry path of the two-limb schoolbook product and both REDC rounds)
 //@harness split_mul_u16_p2 | bounded(word size 16 bits; second prime 40961 = 5*2^13+1; ALL operand pairs) | same contract for a second modulus (different limb patterns: p1 small, p0 = 1)
-//@harness single_mul_u16_full | bounded(word size 16 bits instead of 32/64; ALL operand pairs) | FieldMulOpsSingleWord::mul at W=u16 / DoubleWord=u32, prime 65521: same contract (cross-check of the Verus proof for FP32/FP64)
+//@harness single_mul_u16_full | bounded(word size 16 bits instead of 32/64; ALL operand pairs) | FieldMulOpsSingleWord::mul at W=u16 / DoubleWord=u32, prime 65269: same contract (cross-check of the Verus proof for FP32/FP64)
 //@harness pow_inv_u16 | bounded(word size 16 bits, exponents 8 bits) | FieldOps::pow over the u16 instance: pow(x, e) == x^e in the Montgomery domain for all x and 8-bit e (square-and-multiply bit order, leading_zeros bound); inv(x) == pow(x, p-2)
 #[cfg(kani)]
 mod verif_c09_small {
@@ -10,7 +11,10 @@ mod verif_c09_small {
     impl Word for u16 { const BITS: usize = 16; }
     impl Word for u8 { const BITS: usize = 8; }
 
-    // 65521 = largest prime below 2^16;  R = 2^16.  mu = -p^-1 mod 2^8 (split: LOG2_BASE = 8) resp. mod 2^16 (single)
+    // PRECONDITION of the split-word code (derived while building this harness, not stated in the source): the
+    // carry out of the top limb after the first REDC round is dropped, which is only sound if
+    // PRIME * (2^W + 2^(W/2)) < 2^(2W), i.e. PRIME <= 2^W - 2^(W/2).  FP128 meets it (2^128 - p > 2^68, asserted below);
+    // 65521 does not and is multiplied wrongly (e.g. x=65352, y=65481).  65269 = largest prime below 2^16 - 2^8;  R = 2^16.  mu = -p^-1 mod 2^8 (split: LOG2_BASE = 8) resp. mod 2^16 (single)
     const fn neg_inv_pow2(p: u32, bits: u32) -> u32 {
         // Newton iteration for p^-1 mod 2^bits, then negate
         let m = if bits == 32 { u32::MAX } else { (1u32 << bits) - 1 };
@@ -36,10 +40,10 @@ mod verif_c09_small {
             }
         };
     }
-    small_field!(S16a, 65521u16);
+    small_field!(S16a, 65269u16);
     small_field!(S16b, 40961u16);
-    small_field!(S16c, 65521u16);
-    impl FieldMulOpsSplitWord<u16> for S16a { type HalfWord = u8; const MU: u8 = neg_inv_pow2(65521, 8) as u8; }
+    small_field!(S16c, 65269u16);
+    impl FieldMulOpsSplitWord<u16> for S16a { type HalfWord = u8; const MU: u8 = neg_inv_pow2(65269, 8) as u8; }
     impl FieldOps<u16> for S16a { fn mul(x: u16, y: u16) -> u16 { <Self as FieldMulOpsSplitWord<_>>::mul(x, y) } }
     impl FieldMulOpsSplitWord<u16> for S16b { type HalfWord = u8; const MU: u8 = neg_inv_pow2(40961, 8) as u8; }
     impl FieldOps<u16> for S16b { fn mul(x: u16, y: u16) -> u16 { <Self as FieldMulOpsSplitWord<_>>::mul(x, y) } }
@@ -61,6 +65,15 @@ mod verif_c09_small {
                 kani::cover!(x == 0xffff && y as u64 == p - 1);
             }
         };
+    }
+    #[kani::proof]
+    fn split_word_precondition_fp128() {
+        // the implicit precondition of FieldMulOpsSplitWord holds for the deployed 128-bit prime
+        let p = <crate::fp::FP128 as FieldParameters<u128>>::PRIME;
+        assert!(p <= u128::MAX - (1u128 << 64) + 1);
+        assert!(<crate::fp::FP128 as FieldMulOpsSplitWord<u128>>::MU as u128 == <crate::fp::FP128 as FieldParameters<u128>>::MU);
+        // mu * p0 == -1 mod 2^64
+        assert!((<crate::fp::FP128 as FieldMulOpsSplitWord<u128>>::MU).wrapping_mul(p as u64) == u64::MAX);
     }
     mul_h!(split_mul_u16_full, S16a);
     mul_h!(split_mul_u16_p2, S16b);
